@@ -180,6 +180,13 @@ def gen_program(r: Rng, size=30, sp=None, allow_undefined=False, stdout_writes=T
                 p.opr(r.choice([1, 2]))
             elif k < 12 and depth < 2:
                 inner = block(depth + 1, 1 + r.below(4))
+                if r.chance(1, 2):
+                    # branch decision on a boundary value, made observable by a write in the skipped block
+                    p.op("LDAC", r.choice([0, 1, -1, 0x7FFFFFFF, -0x80000000, 0x100000, 0x200000, 255, 256]))
+                    wr = Prog()
+                    wr.op("LDAC", 0x42); wr.op("LDBM", 1); wr.op("STAI", 2)
+                    wr.op("LDAC", 0 if stdout_writes else 0x300); wr.op("STAI", 3); wr.op("LDAC", 1); wr.opr(3)
+                    inner.b = wr.b + inner.b
                 p.op(r.choice(["BR", "BRZ", "BRN"]), len(inner.b))
                 p.b += inner.b
             elif k == 12 and depth < 2:
